@@ -871,6 +871,7 @@ func lgRunSchedule(t *testing.T, sc lgSched) (lines []map[string]any, hits map[s
 			t.Fatalf("verif harness: could not finish the in-flight request of %s", p)
 		}
 		skipPublish := map[int]bool{}
+		upFailed := map[string]bool{}
 		for si, st := range sc.Steps {
 			if skipPublish[si] {
 				continue
@@ -878,6 +879,7 @@ func lgRunSchedule(t *testing.T, sc lgSched) (lines []map[string]any, hits map[s
 			switch st.A {
 			case "Append":
 				finish(st.P)
+				upFailed[st.P] = false
 				pendingShape[st.P] = [3]any{sent[st.P] + 1, st.N, st.Kind}
 				produce(st.P, st.N, st.Kind)
 				r.release(st.P+":append", "go")
@@ -888,17 +890,23 @@ func lgRunSchedule(t *testing.T, sc lgSched) (lines []map[string]any, hits map[s
 			case "UpSeg":
 				if st.Ok {
 					r.release(st.P+":upseg", "ok")
-				} else {
-					r.release(st.P+":upseg", failOutcome(st.P, st.P+":upseg"))
+				} else if r.release(st.P+":upseg", failOutcome(st.P, st.P+":upseg")) {
+					upFailed[st.P] = true
 				}
 			case "UpIdx":
 				if st.Ok {
 					r.release(st.P+":upidx", "ok")
-				} else {
-					r.release(st.P+":upidx", failOutcome(st.P, st.P+":upidx"))
+				} else if r.release(st.P+":upidx", failOutcome(st.P, st.P+":upidx")) {
+					upFailed[st.P] = true
 				}
 			case "UpSkip":
-				r.release(st.P+":up"+st.Which, "skip")
+				// a sibling upload is only ever cancelled after the other one really failed; under steering divergence
+				// (the failure step found nobody parked) the upload simply succeeds
+				if upFailed[st.P] {
+					r.release(st.P+":up"+st.Which, "skip")
+				} else {
+					r.release(st.P+":up"+st.Which, "ok")
+				}
 			case "UpDone":
 				r.release(st.P+":updone", "go")
 			case "PubRead":
